@@ -417,73 +417,82 @@ structure RelocAcc where
 
 def padTo (b : Bytes) (n : Nat) : Bytes := b ++ zeros (n - b.length)
 
+/-- the final `write_offset(buffer + source_offset, value, format)` of one loop iteration -/
+def relocFinish (acc : RelocAcc) (re : Reloc) (value : BitVec 64) : Except Err RelocAcc :=
+  match (acc.secs[re.srcSec]?).bind (fun sec => writeOffset sec.buf re.srcOff value re.fmt) with
+  | some buf' => .ok { acc with secs := setBuf acc.secs re.srcSec buf' }
+  | none => .error .invalidRelocEntry
+
+/-- `kX64AddressEntry` when a rel32 cannot reach the target: assign / reuse the slot, rewrite `[REX] E8|E9` to `FF /2|/4`,
+store the target in the slot; returns the modified buffers and the rel32 that reaches the slot -/
+def relocTable (s : State) (acc : RelocAcc) (re : Reloc) (src : Section) : Except Err (RelocAcc × BitVec 64) :=
+  let valueOffset := re.srcOff + re.fmt.valueOffset
+  match acc.addrTab.findIdx? (fun e => e.addr == re.payload), s.addrTabSec with
+  | some ei, some ats =>
+    let (tab, nSlots, slot) : List AddrEntry × Nat × Nat :=
+      match acc.addrTab[ei]? with
+      | some { addr := a, slot := none } => (acc.addrTab.set ei { addr := a, slot := some acc.nSlots }, acc.nSlots + 1, acc.nSlots)
+      | some { addr := _, slot := some k } => (acc.addrTab, acc.nSlots, k)
+      | none => (acc.addrTab, acc.nSlots, 0)
+    let atIndex := slot * s.arch.regSize
+    let addrSrc := src.offset + BitVec.ofNat 64 re.srcOff + BitVec.ofNat 64 re.regionSize
+    let addrDst := secOffset acc.secs ats + BitVec.ofNat 64 atIndex
+    let v2 := addrDst - addrSrc
+    if !isInt32 v2 then .error .relocOffsetOutOfRange else
+    match src.buf[valueOffset - 1]? with
+    | none => .error .invalidRelocEntry
+    | some b1 =>
+      let nb1 : Option (BitVec 8) := if b1 = 0xE8#8 then some 0x15#8 else if b1 = 0xE9#8 then some 0x25#8 else none
+      match nb1 with
+      | none => .error .invalidRelocEntry
+      | some nb =>
+        let buf1 := (src.buf.set (valueOffset - 2) 0xFF#8).set (valueOffset - 1) nb
+        let secs1 := setBuf acc.secs re.srcSec buf1
+        -- storeu_u64_le into the address table data (reserved up to the virtual size; its *size* is set at the end)
+        let secs2 := modifySec secs1 ats (fun t =>
+          match storeLE (padTo t.buf (atIndex + 8)) atIndex re.payload.toNat 8 with
+          | some b => { t with buf := b }
+          | none => t)
+        .ok ({ secs := secs2, addrTab := tab, nSlots := nSlots }, v2)
+  | _, _ => .error .invalidRelocEntry
+
+/-- the `switch (re->reloc_type())`: the value to write (and, for the address-table form, the buffers it modifies first) -/
+def relocPrep (s : State) (base : BitVec 64) (acc : RelocAcc) (re : Reloc) (src : Section) : Except Err (RelocAcc × BitVec 64) :=
+  let site := base + src.offset + BitVec.ofNat 64 re.srcOff + BitVec.ofNat 64 re.regionSize
+  match re.type with
+  | .expression =>
+    match s.exprs[re.payload.toNat]? with
+    | none => .error .invalidState
+    | some e =>
+      match evalExpr { s with secs := acc.secs } e with
+      | .ok v => .ok (acc, v)
+      | .error er => .error er
+  | .absToAbs => .ok (acc, re.payload)
+  | .relToAbs =>
+    match re.tgtSec.bind (fun t => acc.secs[t]?) with
+    | none => .error .invalidRelocEntry
+    | some tgt => .ok (acc, re.payload + (base + tgt.offset))
+  | .absToRel =>
+    let v := re.payload - site
+    if s.arch.regSize ≤ 4 then .ok (acc, (v.truncate 32).signExtend 64)
+    else if !isInt32 v then .error .relocOffsetOutOfRange
+    else .ok (acc, v)
+  | .x64AddressEntry =>
+    if re.fmt.valueSize ≠ 4 ∨ re.srcOff + re.fmt.valueOffset < 2 then .error .invalidRelocEntry else
+    let v := re.payload - site
+    if isInt32 v then .ok (acc, v) else relocTable s acc re src
+  | _ => .error .invalidRelocEntry
+
 /-- the body of the `for (const RelocEntry* re : _relocations)` loop of `CodeHolder::relocate_to_base` -/
 def relocStep (s : State) (base : BitVec 64) (acc : RelocAcc) (re : Reloc) : Except Err RelocAcc :=
   if re.type = .none then .ok acc else
   match acc.secs[re.srcSec]? with
   | none => .error .invalidRelocEntry
   | some src =>
-    let bufSize := src.buf.length
-    if re.srcOff ≥ bufSize ∨ bufSize - re.srcOff < re.regionSize then .error .invalidRelocEntry else
-    let sectionOffset := src.offset
-    let sourceOffset := BitVec.ofNat 64 re.srcOff
-    let regionSize := BitVec.ofNat 64 re.regionSize
-    let finish (acc : RelocAcc) (value : BitVec 64) : Except Err RelocAcc :=
-      match (acc.secs[re.srcSec]?).bind (fun sec => writeOffset sec.buf re.srcOff value re.fmt) with
-      | some buf' => .ok { acc with secs := setBuf acc.secs re.srcSec buf' }
-      | none => .error .invalidRelocEntry
-    match re.type with
-    | .expression =>
-      match s.exprs[re.payload.toNat]? with
-      | none => .error .invalidState
-      | some e =>
-        match evalExpr { s with secs := acc.secs } e with
-        | .ok v => finish acc v
-        | .error er => .error er
-    | .absToAbs => finish acc re.payload
-    | .relToAbs =>
-      match re.tgtSec.bind (fun t => acc.secs[t]?) with
-      | none => .error .invalidRelocEntry
-      | some tgt => finish acc (re.payload + (base + tgt.offset))
-    | .absToRel =>
-      let v := re.payload - (base + sectionOffset + sourceOffset + regionSize)
-      if s.arch.regSize ≤ 4 then finish acc ((v.truncate 32).signExtend 64)
-      else if !isInt32 v then .error .relocOffsetOutOfRange
-      else finish acc v
-    | .x64AddressEntry =>
-      let valueOffset := re.srcOff + re.fmt.valueOffset
-      if re.fmt.valueSize ≠ 4 ∨ valueOffset < 2 then .error .invalidRelocEntry else
-      let v := re.payload - (base + sectionOffset + sourceOffset + regionSize)
-      if isInt32 v then finish acc v else
-      match acc.addrTab.findIdx? (fun e => e.addr == re.payload), s.addrTabSec with
-      | some ei, some ats =>
-        let (tab, nSlots, slot) : List AddrEntry × Nat × Nat :=
-          match acc.addrTab[ei]? with
-          | some { addr := a, slot := none } => (acc.addrTab.set ei { addr := a, slot := some acc.nSlots }, acc.nSlots + 1, acc.nSlots)
-          | some { addr := _, slot := some k } => (acc.addrTab, acc.nSlots, k)
-          | none => (acc.addrTab, acc.nSlots, 0)
-        let atIndex := slot * s.arch.regSize
-        let addrSrc := sectionOffset + sourceOffset + regionSize
-        let addrDst := secOffset acc.secs ats + BitVec.ofNat 64 atIndex
-        let v2 := addrDst - addrSrc
-        if !isInt32 v2 then .error .relocOffsetOutOfRange else
-        match src.buf[valueOffset - 1]? with
-        | none => .error .invalidRelocEntry
-        | some b1 =>
-          let nb1 : Option (BitVec 8) := if b1 = 0xE8#8 then some 0x15#8 else if b1 = 0xE9#8 then some 0x25#8 else none
-          match nb1 with
-          | none => .error .invalidRelocEntry
-          | some nb =>
-            let buf1 := (src.buf.set (valueOffset - 2) 0xFF#8).set (valueOffset - 1) nb
-            let secs1 := setBuf acc.secs re.srcSec buf1
-            -- storeu_u64_le into the address table data (reserved up to the virtual size; its *size* is set at the end)
-            let secs2 := modifySec secs1 ats (fun t =>
-              match storeLE (padTo t.buf (atIndex + 8)) atIndex re.payload.toNat 8 with
-              | some b => { t with buf := b }
-              | none => t)
-            finish { secs := secs2, addrTab := tab, nSlots := nSlots } v2
-      | _, _ => .error .invalidRelocEntry
-    | _ => .error .invalidRelocEntry
+    if re.srcOff ≥ src.buf.length ∨ src.buf.length - re.srcOff < re.regionSize then .error .invalidRelocEntry else
+    match relocPrep s base acc re src with
+    | .ok (acc1, v) => relocFinish acc1 re v
+    | .error e => .error e
 
 def relocLoop (s : State) (base : BitVec 64) : List Reloc → RelocAcc → RelocAcc × Err
   | [], acc => (acc, .ok)
